@@ -52,7 +52,7 @@ def type_expr(rng, names, depth):
     return inner
 
 
-def make_project(seed, nfiles):
+def make_project(seed, nfiles, dup=False):
     """returns {'files': {relpath: [item blocks]}, 'meta': {...}}; blocks are complete top-level items"""
     rng = Rng(seed)
     files = {}
@@ -131,6 +131,13 @@ def make_project(seed, nfiles):
         block = "%s\npub %sfn %s(%s) -> Result<%s, String> {\n%s}\n" % (attr, asy, name, ", ".join(params), ret, body)
         decls[p].append(block)
         meta["commands"].append(name)
+    # the same serde type name defined in two files with different fields (one of the definitions is used by a command)
+    if dup and nfiles >= 2:
+        pa, pb = paths[0], paths[-1]
+        decls[pa].append("#[derive(Debug, Clone, Serialize, Deserialize)]\npub struct Settings {\n    pub volume: i32,\n}\n")
+        decls[pb].append("#[derive(Debug, Clone, Serialize, Deserialize)]\npub struct Settings {\n    pub width: u64,\n    pub height: u64,\n}\n")
+        decls[rng.pick(paths)].append("#[tauri::command]\npub fn load_settings(id: i32) -> Result<Settings, String> {\n    todo!()\n}\n")
+        meta["commands"].append("load_settings")
     if agg:
         decls[paths[0]].append("#[tauri::command]\npub fn load_aggregate(id: i32) -> Result<%s, String> {\n    todo!()\n}\n" % agg)
         meta["commands"].append("load_aggregate")
